@@ -408,6 +408,21 @@ IntClose(ty, op, expect, o) ==
     IF op \in RootedOps /\ ty = "f32" THEN Abs(o - expect) <= 1 + (expect \div 262144)
     ELSE o = expect
 
+(* p-norms of NON-integer order p = p2/2 (p2 odd: 1/2, 3/2, 5/2).  TLA+ has no real powers, so the
+   value itself is not recomputed; what the formula (sum |x_i|^p)^(1/p) implies in integers is:
+   the result is a finite number, and it is bracketed by the norms that ARE computable --
+   max|x| <= ||x||_p <= ||x||_1 for p >= 1, and ||x||_1 <= ||x||_p <= n * ||x||_1 for p = 1/2.
+   (A negative entry raised to a non-integer power before the absolute value is taken gives NaN:
+   "not finite".)  Agreement of the three back ends on the value is BackendAgree's business. *)
+NormHalfOps == {"norm_half", "v_norm_half"}
+NormHalfOK(ty, A, p2, o) ==
+    LET n1 == Norm1(A)
+        ni == NormInf(A)
+        n  == Len(A.d)
+        t  == 2 + TolTy(ty, n * n1)
+    IN  IF p2 >= 2 THEN o >= ni * FxOne - t /\ o <= n1 * FxOne + t
+        ELSE o >= n1 * FxOne - t /\ o <= n * n1 * FxOne + t
+
 QBool(op, A, B, ia) ==
     CASE op \in {"eq", "v_eq"} -> EqM(A, B)
       [] op \in {"approximate_eq", "v_approximate_eq"} -> ApproxEq(A, B, ia[1])
